@@ -45,6 +45,7 @@ class Clause:
     tags: List[str]
     vc_file: str
     vc_line: int
+    assumed: bool = False     # `[label assumed Cxx]`: part of the contract callers may use, never proved at the definition (listed in evidence)
 
 
 @dataclass
@@ -150,6 +151,7 @@ def _parse_clause_block(lines: List[Tuple[int, str]], vc_file: str, default_tags
                 raise ContractError('%s:%d: clause before keyword' % (vc_file, ln))
             body = s[2:].strip()
             label = None
+            is_assumed = False
             tags = list(default_tags)
             m = re.match(r'\[([^\]]*)\]\s*(.*)$', body)
             if m:
@@ -157,6 +159,8 @@ def _parse_clause_block(lines: List[Tuple[int, str]], vc_file: str, default_tags
                 # only treat as a label bracket if all tokens look like labels/tags
                 if toks and all(re.match(r'^[A-Za-z0-9_.\-]+$', t) for t in toks):
                     body = m.group(2)
+                    is_assumed = 'assumed' in toks
+                    toks = [t for t in toks if t != 'assumed']
                     ptags = [t for t in toks if re.match(r'^C\d\d$', t)]
                     names = [t for t in toks if not re.match(r'^C\d\d$', t)]
                     if ptags:
@@ -166,7 +170,7 @@ def _parse_clause_block(lines: List[Tuple[int, str]], vc_file: str, default_tags
             k = counters.get(kind, 0)
             counters[kind] = k + 1
             lab = '%s%s.%s' % (prefix, kind, label if label else str(k))
-            cur = Clause(kind, body, lab, tags, vc_file, ln)
+            cur = Clause(kind, body, lab, tags, vc_file, ln, assumed=is_assumed)
             blk.clauses.append(cur)
         else:
             if cur is None:
